@@ -156,18 +156,53 @@ def anchor_renames(d, pkg):
         anchors = None
     if not anchors:
         return {}
+    regs = anchors.get("#registries", {})
+    anchors = {k: v for k, v in anchors.items() if not k.startswith("#")}
     cur = {b["path"]: b for b in d["bodies"] if b.get("kind") in ("fn", "assoc_fn") and "{closure" not in b["path"]}
     missing = [p_ for p_ in anchors if p_ not in cur]
     extra = [p_ for p_ in cur if p_ not in anchors]
     if not missing or not extra:
         return {}
+    moved = {}
+    # (B) a registry row keeps its user-visible name while its implementation moved (and was perhaps renamed): the row identifies it.
+    #     When the whole module of the old target went to the new target's module (same relative names), everything in it moves along.
+    for r in d.get("registries", []):
+        frozen = regs.get(r["path"]) or {}
+        for row in r["rows"]:
+            o_, n_ = frozen.get(row["name"]), row.get("target_path")
+            if not o_ or not n_ or o_ == n_ or o_ in cur or o_ not in anchors or n_ in anchors or n_ not in cur:
+                continue
+            if list(_fn_sig(cur[n_])[1:]) != list(anchors[o_]["sig"][1:]):
+                continue
+            moved[n_] = o_
+            po, pn = o_.rsplit("::", 1)[0] + "::", n_.rsplit("::", 1)[0] + "::"
+            olds = {a_[len(po):] for a_ in anchors if a_.startswith(po)}
+            news = {c_[len(pn):] for c_ in cur if c_.startswith(pn)}
+            if po != pn and olds == news and all(po + x_ not in cur and pn + x_ not in anchors for x_ in olds):
+                for x_ in olds:
+                    moved[pn + x_] = po + x_
+    # (C) a function that kept its name and signature but lives in another module / impl now (one candidate on either side)
+    by_name = collections.defaultdict(list)
+    for p_ in extra:
+        if p_ not in moved:
+            by_name[(p_.rsplit("::", 1)[1],) + tuple(_fn_sig(cur[p_])[1:])].append(p_)
+    want_name = collections.defaultdict(list)
+    for p_ in missing:
+        if p_ not in moved.values():
+            want_name[(p_.rsplit("::", 1)[1],) + tuple(anchors[p_]["sig"][1:])].append(p_)
+    for key_, olds in want_name.items():
+        news = by_name.get(key_, [])
+        if len(olds) == 1 and len(news) == 1 and olds[0].rsplit("::", 1)[0] != news[0].rsplit("::", 1)[0]:
+            moved[news[0]] = olds[0]
+    missing = [p_ for p_ in missing if p_ not in moved.values()]
+    extra = [p_ for p_ in extra if p_ not in moved]
     by_sig = collections.defaultdict(list)
     for p_ in extra:
         by_sig[tuple(_fn_sig(cur[p_]))].append(p_)
     want = collections.defaultdict(list)
     for p_ in missing:
         want[tuple(anchors[p_]["sig"])].append(p_)
-    out = {}
+    out = dict(moved)
     for sig, olds in want.items():
         news = by_sig.get(sig, [])
         if len(olds) == 1 and len(news) == 1:
